@@ -23,11 +23,11 @@ CFG3 = {
 def models(tier):
     out = []
     msgs = ["rq:3:own", "rq:4:own", "rq:4:r2", "rq:3:r2", "rq:9:own", "rq:3:foreign", "rq:9:foreign", "rq:3:own:missing", "rq:9:foreign:missing",
-            "dwr", "dwa", "untyped"]
+            "rq:3:own:missing:T", "rq:3:own:T", "dwr", "dwa", "untyped"]
     alpha = []
     for c in (0, 1):
         alpha += [("m", c, n) for n in msgs]
-    alpha += [("m", 0, "dpr"), ("ans", 0), ("ans", 1), ("tick", 2)]
+    alpha += [("m", 0, "dpr"), ("ans", 0), ("ans", 1), ("tick", 2), ("send", 0, "foreign"), ("send", 2, "r2"), ("send", 0, "own")]
     out.append(monitors.ScenarioModel("three-apps-two-peers", CFG3, alpha, MONS, max_socks=2,
                                       prelude=[("accept",), ("m", 0, "cer_p0"), ("accept",), ("m", 1, "cer_p1")]))
     one = copy.deepcopy(CFG3)
@@ -97,7 +97,8 @@ def sweep_class(idx):
             body = b"".join(b.ref_avps(cls, sp))
             hbh, e2e = 0x5000 + k, 0x6000 + k
             before = len(nw.requests)
-            nw.deliver(s.fs, rc.enc_msg(code, R | P, 77, hbh, e2e, [body]))
+            # every second incomplete request is flagged as a possible retransmission (never answered before)
+            nw.deliver(s.fs, rc.enc_msg(code, R | P | (0x10 if sub and k % 2 else 0), 77, hbh, e2e, [body]))
             answers = [f for f in nw.frames(s.fs) if (f.h.hbh, f.h.e2e) == (hbh, e2e)]
             delivered = nw.requests[before:]
             case = {"class": cls.__name__, "removed": [d.attr_name for d in sub]}
@@ -131,9 +132,63 @@ def n_request_classes():
                 ("CapabilitiesExchangeRequest", "DeviceWatchdogRequest", "DisconnectPeerRequest")])
 
 
+# ------------------------------------------------------------------ E4: two connections' readers routing concurrently
+def sched_execute(_cfgname, prefix):
+    from .. import scheddfs
+    import diameter.node.node as nn
+    sk.install()
+    sk.set_line_points({sk.code_of(nn.Node, "_receive_app_request"): None, sk.code_of(nn.Node, "_receive_message"): None})
+    ch = scheddfs.Chooser(prefix)
+    sc = scenario.Scenario(CFG3, chooser=ch, max_socks=2)
+    try:
+        nw = sc.start()
+        mons = [m(sc) for m in MONS]
+        vs = []
+        for ev in (("accept",), ("m", 0, "cer_p0"), ("accept",), ("m", 1, "cer_p1")):
+            sc.apply(ev)
+        for m in mons:
+            vs += m.step()
+        s0, s1 = sc.socks
+        d0 = sc.message(s0, "rq:3:own")
+        d1 = sc.message(s1, "rq:3:own")
+        nw.world.points_on = True
+        ch.window = True
+        nw.deliver(s0.fs, d0, run=False)
+        nw.deliver(s1.fs, d1, run=False)
+        nw.run()
+        ch.window = False
+        nw.world.points_on = False
+        sc.sync()
+        for m in mons:
+            vs += m.step()
+        for ev in (("m", 1, "rq:3:own"), ("m", 0, "rq:3:own"), ("m", 1, "rq:4:own"), ("m", 0, "rq:4:own")):
+            sc.apply(ev)
+            for m in mons:
+                vs += m.step()
+        obs = (tuple(sorted(set(k for k, d in vs))), tuple((a.index, m.header.hop_by_hop_identifier) for a, m in nw.requests), tuple(nw.thread_failures()))
+        return (obs, tuple(vs)), ch
+    finally:
+        sc.close()
+
+
+def sched_check(obs_vs):
+    obs, vs = obs_vs
+    return [(k + ":under-some-schedule", d) for k, d in vs]
+
+
 def run(tier):
     rep = Report("C08", tier, "model_checking")
     common.pool()
+    import functools
+    from .. import scheddfs
+    bound = 2 if tier == "thorough" else 1
+    r = scheddfs.explore(functools.partial(sched_execute, "cfg3"), sched_check, bound)
+    for (key, detail), choices in r["violations"]:
+        rep.add(Violation(key, f"[two readers routing concurrently, bound {bound}] choices {choices}: {detail}", {"sched": "cfg3", "choices": choices}))
+    rep.sample({"schedule_exploration": "requests on two ready connections processed concurrently by their reader threads (line granularity in "
+                                        "_receive_message/_receive_app_request), then 4 follow-up requests", "preemption_bound": bound,
+                "executions": r["executions"], "distinct_outcomes": len(r["outcomes"]), "branching_points": r["max_points"]})
+    rep.cov["schedules"] = r["executions"]
     depth = 5 if tier == "thorough" else 4
     tot = monitors.run_models(rep, models(tier), depth, dedup_depth_plain=max(2, depth - 2), time_cap=900 if tier == "thorough" else 100)
     nsweep = 0
